@@ -271,6 +271,17 @@ class OpenModel:
         return self.seen
 
 
+def setlen_untolerated(M, n):
+    """a product state at set_len node n that is outside the tolerated-error table, or None"""
+    for (pi, ms) in M.run():
+        if M.P.gnode(pi) != n:
+            continue
+        pend, can, eof, reached, nonzero, gap, tdone, other = ms
+        if not (pend and can and (eof or (reached and not nonzero))):
+            return (pi, ms)
+    return None
+
+
 def run(ctx, rep):
     rep.rule("R09.1", "every Ok return of WALRecord::decode crosses the Ok edge of verify_checksum")
     rep.rule("R09.2", "every byte of a record is read/written through the checksum reader/writer; nothing after verify/write_checksum")
